@@ -28,6 +28,29 @@ def section(kind, k):
     return [c(a, k), c(r, k)]
 
 
+def free_scenarios(run):
+    q = run.quick()
+    out = []
+    def st(t, op, k):
+        return dict(t=t, op=op, k=k)
+    for kind, L, T, U, C, R, TR, RU in (("m", "Lock", "TryLock", "Unlock", "ClearKey", "Lock", "TryLock", "Unlock"),
+                                      ("rw", "WLock", "TryWLock", "WUnlock", "WClearKey", "RLock", "TryRLock", "RUnlock")):
+        # a holder of key 1, a waiter on key 1, a ClearKey of the idle key 3, then traffic on key 2 (also by the holder: nested keys)
+        for acq, tr, rel in ((L, T, U), (R, TR, RU)):
+            for hold, hrel in ((L, U),) if kind == "m" else ((L, U), (R, RU)):
+                waiter = L     # a waiter must conflict with the holder: a writer
+                out.append(dict(kind=kind, steps=[st(1, hold, 1), st(2, waiter, 1), st(3, C, 3), st(4, tr, 2), st(4, rel, 2), st(4, acq, 2), st(4, rel, 2),
+                                                  st(1, acq, 2), st(1, rel, 2), st(3, C, 2), st(3, tr, 3), st(3, rel, 3), st(1, hrel, 1)]))
+                out.append(dict(kind=kind, steps=[st(1, hold, 1), st(2, waiter, 1), st(3, waiter, 1), st(4, C, 2), st(4, acq, 2), st(4, tr, 3), st(4, rel, 3),
+                                                  st(4, rel, 2), st(1, hrel, 1)]))
+        # waiters of different keys at the same time; releases in both orders
+        out.append(dict(kind=kind, steps=[st(1, L, 1), st(2, L, 2), st(3, L, 1), st(4, L, 2), st(1, T, 3), st(1, U, 3), st(2, U, 2), st(1, U, 1)]))
+        out.append(dict(kind=kind, steps=[st(1, L, 1), st(2, L, 2), st(3, L, 1), st(4, L, 2), st(2, C, 3), st(1, U, 1), st(2, U, 2)]))
+    for i in range(60 if q else 1500):
+        out.append(dict(kind=("m" if i % 2 else "rw"), steps=[dict(t=run.rng.randint(1, 4), r=run.rng.randint(0, 9999)) for _ in range(run.rng.randint(8, 30))]))
+    return out
+
+
 def check(run):
     q = run.quick()
     # design level
@@ -84,6 +107,13 @@ def check(run):
         p = [section(run.rng.choice(fam), run.rng.choice([1, 2])) + (section(run.rng.choice(fam), run.rng.choice([1, 2])) if run.rng.random() < 0.5 else [])
              for _ in range(run.rng.choice([3, 4]))]
         rnd.append(program([], p, "random", n=20 if q else 60, seed=run.seed * 1000 + i))
+    # (g) free-running timelines: goroutines really queue on the locks (the controlled scheduler never lets one enter a Lock that waits)
+    free = free_scenarios(run)
+    fevs, rc, err = run_driver(run, "keyedfree", free, allow_fail=True, timeout=1500)
+    if rc != 0:
+        raise Inconclusive("keyedfree driver failed rc=%d: %s" % (rc, err[-1200:]))
+    fsegs = split_segments(fevs, reset_key="ev", reset_val="reset")
+    validate(run, "keyed", "KeyedLockAbsTrace", dict(NK=3, NT=4), fsegs, [], plans=free[:len(fsegs)], label="free-running")
     h1, _ = run_programs(run, "keyed", progs)
     h2, _ = run_programs(run, "keyed", rnd)
     allh = h1 + h2
@@ -91,7 +121,8 @@ def check(run):
     validate(run, "keyed", "KeyedLockAbsTrace", dict(NK=3, NT=4), segs, [], plans=replay_plans(srcs), label="history")
     for r in run.rejections:
         r["fact"] = True
-    run.cov.update(dfs_programs=len(progs), random_programs=len(rnd), executions=run.cov.get("executions_total", 0),
+    run.cov.update(free_running_timelines=len(fsegs), free_running_completed=sum(1 for sg in fsegs if any(e.get("ev") == "end" for e in sg)),
+                   dfs_programs=len(progs), random_programs=len(rnd), executions=run.cov.get("executions_total", 0),
                    distinct_histories=len(segs), deadlocks=sum(1 for h in allh if h["deadlock"]),
                    free_mode_executions=sum(1 for h in allh if h["free"]), exhaustive=False, distinct_nontrivial=len(segs),
                    rule="executions = every hook-level schedule with <= 2 (thorough 3) preemptions of two critical sections (Lock/TryLock, "
